@@ -525,3 +525,17 @@ MUTANTS['C04']['rename-failure-falls-back-to-copy'] = ([(FU, """        except O
                 except Exception:
                     pass  # avoid masking original error
             raise  # could not save destination file""")], 'detect')
+
+MUTANTS['C12']['recv_until-oserror-drops-buffer'] = ([(SU, """            except Exception:
+                self.rbuf = bytes(recvd)
+                raise
+            val, self.rbuf""", """            except Error:
+                self.rbuf = bytes(recvd)
+                raise
+            val, self.rbuf""")], 'detect')
+MUTANTS['C12']['send-trims-before-send'] = ([(SU, """                    sent = self.sock.send(sbuf[0])
+                    total_sent += sent
+                    sbuf[0] = sbuf[0][sent:]""", """                    chunk, sbuf[0] = sbuf[0][:4096], sbuf[0][4096:]
+                    sent = self.sock.send(chunk)
+                    total_sent += sent
+                    sbuf[0] = chunk[sent:] + sbuf[0]""")], 'detect')
